@@ -309,6 +309,10 @@ def gen_request(r, idx, nonce, feats, opts):
         else:
             framing = 'cl'
             hb.add(r.pick(['Content-Length', 'content-length']), str(len(body)))
+    if framing != 'none' and r.chance(0.1):
+        # the client announces it would wait for a 100 (Continue) but, as it may, sends the body anyway
+        hb.add('Expect', r.pick(['100-continue', '100-Continue']))
+        feats.add('expect')
     hb.add_random(r.randint(0, 2), allow_fold=opts.get('fold', True), allow_repeat=opts.get('repeat', True))
     wire = ('%s %s %s\r\n' % (method, target, version)).encode('latin-1') + hb.wire() + b'\r\n'
     msg_len = 0
